@@ -1345,6 +1345,10 @@ class TaskScenario(ScenarioData):
         # (they work together as a team - can't progress if any member is unavailable)
         if effort > 0 and len(resources_to_book) > 1:
             all_available = True
+            # Members share limits (of a resource group, of this task and its parents):
+            # count each member that passes while checking the next one, so that the
+            # team is only booked when the limits have room for all of its members
+            counted: list[Any] = []
             for resource in resources_to_book:
                 res_scenario = resource.data[self.scenarioIdx] if resource.data else None
                 if res_scenario is None:
@@ -1360,6 +1364,10 @@ class TaskScenario(ScenarioData):
                 if not self.limitsOk(slot_idx, resource):
                     all_available = False
                     break
+                self._countTentativeBooking(resource, slot_idx, True)
+                counted.append(resource)
+            for resource in counted:
+                self._countTentativeBooking(resource, self.currentSlotIdx if self.currentSlotIdx is not None else 0, False)
 
             if not all_available:
                 # Can't book - one or more resources unavailable
@@ -1440,6 +1448,27 @@ class TaskScenario(ScenarioData):
         """
         for limits in self.getAllLimits():
             limits.inc(sbIdx, resource=resource.id if resource else None)
+
+    def _countTentativeBooking(self, resource: Any, sbIdx: int, add: bool) -> None:
+        """
+        Add (or take back) one booking of the resource in the limit counters that a real
+        booking would increment: the limits of the resource and its parents, and the
+        limits of this task and its parents.
+        """
+        node: Optional[Any] = resource
+        while node:
+            limits = node.get("limits", self.scenarioIdx)
+            if limits and hasattr(limits, "inc"):
+                if add:
+                    limits.inc(sbIdx)
+                else:
+                    limits.dec(sbIdx)
+            node = node.parent
+        for limits in self.getAllLimits():
+            if add:
+                limits.inc(sbIdx, resource=resource.id)
+            else:
+                limits.dec(sbIdx, resource=resource.id)
 
     def bookResource(self, resource: Any) -> float:
         """
